@@ -81,6 +81,13 @@ def perturb(v, nested=True):
     for o in _OTHER_KINDS:
         if type(o) is not type(v):
             out.append(cp(o))
+    # look-alikes: values of another kind that compare (and hash) equal to v
+    if isinstance(v, bool):
+        out += [int(v), float(v)]
+    elif isinstance(v, int) and abs(v) < 2 ** 53:
+        out += [float(v)] + ([bool(v)] if v in (0, 1) else [])
+    elif isinstance(v, float) and v == v and abs(v) < 2 ** 53 and v == int(v):
+        out += [int(v)] + ([bool(v)] if v in (0.0, 1.0) else [])
     if isinstance(v, bool):
         out.append(not v)
     elif isinstance(v, int):
